@@ -32,6 +32,7 @@ type Str struct {
 	S   string
 	Sym []*Term // non-nil: symbolic bytes; S ignored
 	Tag *Blob
+	IP  []*Term // non-nil: this string is net.IP(IP).String() of symbolic address bytes (4 or 16)
 }
 
 type Backing struct {
@@ -160,6 +161,9 @@ func (e *Engine) strSlice(s Str, lo, hi int) Str {
 }
 
 func (e *Engine) strEq(a, b Str) *Term {
+	if a.IP != nil || b.IP != nil {
+		return e.ipStrEq(a, b)
+	}
 	if a.Tag != nil && b.Tag != nil {
 		return e.tb.Bool(a.Tag == b.Tag)
 	}
